@@ -430,4 +430,44 @@ def extraViolations (a : Ask) (o : Obs) : List String :=
   (if pidZeroRefused a o then [] else ["pidZeroRefused"]) ++
   (if valueErrorJustified a o then [] else ["valueErrorJustified"])
 
+/-! ### seeded round 5: a procfs tree is no evidence of an end
+
+The property speaks about the process having REALLY ended — `endedBy`, the kernel's own process table,
+what `waitpid` / `kill(pid, 0)` answer from. What the procfs tree under `PROCFS_PATH` lists is a view of
+that table which may not show a live process (`hidepid=`, a `PROCFS_PATH` pointed somewhere else after
+the object was made). Every clause above is stated without the view, i.e. for every view; the two
+clauses below name the situation the view adds. -/
+
+/-- what a procfs tree shows of the process over time (`true` = it is listed for as long as it exists) -/
+abbrev ProcfsView := Rat → Bool
+
+/-- alive at `t`, but the procfs view does not list it -/
+def hiddenAlive (env : Env) (view : ProcfsView) (t : Rat) : Prop := ¬ endedBy env t ∧ view t = false
+
+instance (env : Env) (view : ProcfsView) (t : Rat) : Decidable (hiddenAlive env view t) := by
+  unfold hiddenAlive; infer_instance
+
+/-- no result (exit status / None) comes back at an instant at which the process is alive but hidden -/
+def noResultWhileHidden (a : Ask) (view : ProcfsView) (o : Obs) : Prop :=
+  match o.out with
+  | .code _ => ¬ hiddenAlive a.env view o.ret
+  | .none => ¬ hiddenAlive a.env view o.ret
+  | _ => True
+
+instance (a : Ask) (view : ProcfsView) (o : Obs) : Decidable (noResultWhileHidden a view o) := by
+  unfold noResultWhileHidden; split <;> infer_instance
+
+/-- `wait_procs`: no process is reported gone while it is alive but hidden -/
+def noGoneWhileHidden (a : WPAsk) (viewOf : Nat → ProcfsView) (o : WPObs) : Prop :=
+  ∀ pid ∈ o.gone, ¬ hiddenAlive (a.envOf pid) (viewOf pid) o.ret
+
+instance (a : WPAsk) (viewOf : Nat → ProcfsView) (o : WPObs) : Decidable (noGoneWhileHidden a viewOf o) := by
+  unfold noGoneWhileHidden; infer_instance
+
+def viewViolations (a : Ask) (view : ProcfsView) (o : Obs) : List String :=
+  if noResultWhileHidden a view o then [] else ["noResultWhileHidden"]
+
+def wpViewViolations (a : WPAsk) (viewOf : Nat → ProcfsView) (o : WPObs) : List String :=
+  if noGoneWhileHidden a viewOf o then [] else ["noGoneWhileHidden"]
+
 end Psutil.C15.Spec
